@@ -5,6 +5,7 @@ package ast
 import (
 	"bytes"
 	"fmt"
+	"sort"
 	"strconv"
 
 	"github.com/robfig/soy/data"
@@ -749,14 +750,19 @@ func (n *MapLiteralNode) String() string {
 	if len(n.Items) == 0 {
 		return "[:]"
 	}
+	// Go map iteration order is random; print the items sorted by key so that
+	// equal literals print equally.
+	var keys = make([]string, 0, len(n.Items))
+	for k := range n.Items {
+		keys = append(keys, k)
+	}
+	sort.Strings(keys)
 	var expr = "["
-	var first = true
-	for k, v := range n.Items {
-		if !first {
+	for i, k := range keys {
+		if i > 0 {
 			expr += ", "
 		}
-		expr += fmt.Sprintf("'%s': %s", k, v.String())
-		first = false
+		expr += fmt.Sprintf("'%s': %s", k, n.Items[k].String())
 	}
 	return expr + "]"
 }
